@@ -52,51 +52,51 @@ func specs() []*Spec {
 			Assume: trusted,
 		},
 		{
-			ID:    "C17",
-			Units: []Unit{{Pkg: "", Job: "C17", Quick: []string{"default", "force32bit"}, Thorough: []string{"default", "force32bit", "386"}}},
-			Rule:  "E1: the multi-scalar routine called directly on heaps filled as VerifyBatch fills them (count 2n+1; quick n in {4..8,33,63,64}, thorough every n in 4..64) x 20 scalar profiles (hash-like, r=0/1/equal/one-nonzero/first-zero/max, S in top slice, common factors 2,3,4,6,8,2^64,3*2^100 so that the final Bos-Coster scalar is > 1, 56/112/168-bit maxima, 2^127, L-1) x point profiles (honest, same point, P/-P pairs, identity, mixed-order, all torsion) vs sum [s_i]P_i computed by the model through known discrete logs; E2: all sequences of <= 3 chunk sizes from {4,5,63,64} on one reused heap vs a fresh heap; vartime helpers on all pairs of limb-boundary values for every admissible limbSize vs big.Int; end to end with the fallback hook: all-valid batches of sizes 4..200 (quick: 32 sizes around chunk boundaries) x 4 compositions x 3 variants x entropy {zero, 4 DRBG, 0xff, const}: accepted with zero fallbacks (degenerate constant streams reported, not required). non-trivial = collection not all-zero.",
+			ID:     "C17",
+			Units:  []Unit{{Pkg: "", Job: "C17", Quick: []string{"default", "force32bit"}, Thorough: []string{"default", "force32bit", "386"}}},
+			Rule:   "E1: the multi-scalar routine called directly on heaps filled as VerifyBatch fills them (count 2n+1; quick n in {4..8,33,63,64}, thorough every n in 4..64) x 20 scalar profiles (hash-like, r=0/1/equal/one-nonzero/first-zero/max, S in top slice, common factors 2,3,4,6,8,2^64,3*2^100 so that the final Bos-Coster scalar is > 1, 56/112/168-bit maxima, 2^127, L-1) x point profiles (honest, same point, P/-P pairs, identity, mixed-order, all torsion) vs sum [s_i]P_i computed by the model through known discrete logs; E2: all sequences of <= 3 chunk sizes from {4,5,63,64} on one reused heap vs a fresh heap; vartime helpers on all pairs of limb-boundary values for every admissible limbSize vs big.Int; end to end with the fallback hook: all-valid batches of sizes 4..200 (quick: 32 sizes around chunk boundaries) x 4 compositions x 3 variants x entropy {zero, 4 DRBG, 0xff, const}: accepted with zero fallbacks (degenerate constant streams reported, not required). non-trivial = collection not all-zero.",
 			Assume: append(trusted, "points are supplied through UnpackVartime and read back through Pack (decided by C10)"),
 		},
 		{
-			ID:    "C06",
-			Units: []Unit{{Pkg: "", Job: "C06", Quick: def, Thorough: []string{"default", "force32bit"}}},
-			Rule:  "E1 (deviation = number of bad entries): batch length n in {0..9,62..69,126..131,192,193,200} x 6 option sets (3 variants x default/ZIP-215); level 0: all-good x 5 entropy streams (2 DRBG, zero, 0xff, counter); level 1: 15 bad kinds (wrong message, R/S/key bit flip, S+L, valid S in [2^252,L), small-order key/R, undecodable key/R, key 31/nil, signature 63/nil, bad pre-hash or nil message) at every position (n<=9) or at interesting positions {0..3,61..67,125..131,n-4..n-1}; level 2: position pairs x kind pairs (n<=8 all pairs; larger n interesting pairs); thorough adds level 3 for n<=8; unsupported hash selector. E2 (chunk sequences): all sequences of <= 3 full chunks over 7 chunk kinds (fast path, S>=L without fallback, fallback by bad signature / malformed key at last slot / small-order R at slot 0 / bad pre-hash, early break by short signature) x remainder 0..3 x remainder kind; last chunk compared with the same chunk as first chunk of a fresh call. Oracle: per entry well-formedness AND ref.Verify == implementation's single verification == batch entry; summary == AND; len(valid)==n; err==nil. Invalid entries only under DRBG entropy.",
+			ID:     "C06",
+			Units:  []Unit{{Pkg: "", Job: "C06", Quick: def, Thorough: []string{"default", "force32bit"}}},
+			Rule:   "E1 (deviation = number of bad entries): batch length n in {0..9,62..69,126..131,192,193,200} x 6 option sets (3 variants x default/ZIP-215); level 0: all-good x 5 entropy streams (2 DRBG, zero, 0xff, counter); level 1: 15 bad kinds (wrong message, R/S/key bit flip, S+L, valid S in [2^252,L), small-order key/R, undecodable key/R, key 31/nil, signature 63/nil, bad pre-hash or nil message) at every position (n<=9) or at interesting positions {0..3,61..67,125..131,n-4..n-1}; level 2: position pairs x kind pairs (n<=8 all pairs; larger n interesting pairs); thorough adds level 3 for n<=8; unsupported hash selector. E2 (chunk sequences): all sequences of <= 3 full chunks over 7 chunk kinds (fast path, S>=L without fallback, fallback by bad signature / malformed key at last slot / small-order R at slot 0 / bad pre-hash, early break by short signature) x remainder 0..3 x remainder kind; last chunk compared with the same chunk as first chunk of a fresh call. Oracle: per entry well-formedness AND ref.Verify == implementation's single verification == batch entry; summary == AND; len(valid)==n; err==nil. Invalid entries only under DRBG entropy.",
 			Assume: append(trusted, "when an entry is invalid the statement allows failure with probability < 2^-120 over the entropy stream: DRBG streams (seeded by VERIF_SEED) are used as fixed alphabet members"),
 		},
 		{
-			ID:    "C11",
-			Units: []Unit{{Pkg: "extra/x25519", Job: "C11", Quick: []string{"default", "noasm", "force32bit"}, Thorough: allCfg}},
-			Rule:  "E1 enumeration, fast path: nibble-pattern scalar alphabet NIB (every one of 16 digit values at each of 64 radix-16 positions over fills {0,7,8,9,15}; runs of 7/8/9/15 of every length at every start; quick: reduced fills/values/runs), all 8 low-3-bit x 4 top-2-bit patterns on 3 bases, boundary scalars (0,1,L-1,L,L+1,8L,2^254,2^255-8,2^255-1,2^255,2^256-1,...), 64 clamped secret scalars: X25519(s,Basepoint) == ScalarBaseMult == ScalarMult(s,9) == X25519(s,copy of 9) == RFC 7748 ladder of the model (== crypto/ecdh where it accepts the scalar). Generic path: 7 low-order u values (+p, bit 255 set), u in 2..20, 2^255-20..2^255-1, 2^k, 2^k-1, 16 hash-derived u x 4 scalars: value == model, error and nil output iff the result is all-zero. Chains of 40 iterated calls. Lengths are covered by C13.",
+			ID:     "C11",
+			Units:  []Unit{{Pkg: "extra/x25519", Job: "C11", Quick: []string{"default", "noasm", "force32bit"}, Thorough: allCfg}},
+			Rule:   "E1 enumeration, fast path: nibble-pattern scalar alphabet NIB (every one of 16 digit values at each of 64 radix-16 positions over fills {0,7,8,9,15}; runs of 7/8/9/15 of every length at every start; quick: reduced fills/values/runs), all 8 low-3-bit x 4 top-2-bit patterns on 3 bases, boundary scalars (0,1,L-1,L,L+1,8L,2^254,2^255-8,2^255-1,2^255,2^256-1,...), 64 clamped secret scalars: X25519(s,Basepoint) == ScalarBaseMult == ScalarMult(s,9) == X25519(s,copy of 9) == RFC 7748 ladder of the model (== crypto/ecdh where it accepts the scalar). Generic path: 7 low-order u values (+p, bit 255 set), u in 2..20, 2^255-20..2^255-1, 2^k, 2^k-1, 16 hash-derived u x 4 scalars: value == model, error and nil output iff the result is all-zero. Chains of 40 iterated calls. Lengths are covered by C13.",
 			Assume: trusted,
 		},
 		{
-			ID:    "C12",
-			Units: []Unit{{Pkg: "extra/x25519", Job: "C12", Quick: []string{"default", "force32bit"}, Thorough: []string{"default", "force32bit", "386"}}},
-			Rule:  "E1 enumeration: seeds LE32(0..n-1)+0xff..ff (quick 64, thorough 4096): X25519(EdPrivateKeyToX25519(k), Basepoint) == EdPublicKeyToX25519(k.Public()) == model (ladder and Edwards map both), private conversion == clamp(SHA-512(seed)[:32]); public-key strings: every y in [0,2^13) (thorough 2^16) x sign, the 2^9 (2^12) largest 255-bit y (includes all 19 y >= p), 2^k and 2^k+-1, p+-{0,1,2}: result == canonical (1+y)/(1-y), zero for y = 1, failure flag exactly for undecodable strings. non-trivial = decodable string or seed case.",
+			ID:     "C12",
+			Units:  []Unit{{Pkg: "extra/x25519", Job: "C12", Quick: []string{"default", "force32bit"}, Thorough: []string{"default", "force32bit", "386"}}},
+			Rule:   "E1 enumeration: seeds LE32(0..n-1)+0xff..ff (quick 64, thorough 4096): X25519(EdPrivateKeyToX25519(k), Basepoint) == EdPublicKeyToX25519(k.Public()) == model (ladder and Edwards map both), private conversion == clamp(SHA-512(seed)[:32]); public-key strings: every y in [0,2^13) (thorough 2^16) x sign, the 2^9 (2^12) largest 255-bit y (includes all 19 y >= p), 2^k and 2^k+-1, p+-{0,1,2}: result == canonical (1+y)/(1-y), zero for y = 1, failure flag exactly for undecodable strings. non-trivial = decodable string or seed case.",
 			Assume: trusted,
 		},
 		{
-			ID:    "C18",
-			Units: []Unit{{Pkg: "internal/curve25519", Job: "C18", Quick: layoutCfg, Thorough: layoutCfg}},
-			Rule:  "E1 enumeration on both limb layouts (default 5x51, force32bit 10x25.5, GOARCH=386): class R = full product over all limbs of a per-limb alphabet {0,mask,1,mask-1,(19)} (64-bit: 4 values quick / 5 thorough = 1024 / 3125 elements; 32-bit: 2 values = 1024 elements plus all vectors with <= 2 deviations from 3 base patterns over a 10-value alphabet) plus the representations of 0,1,p-1,p,p+1,2^255-1 and the documented multiplication worst case; Add/Sub/AddReduce/SubReduce/Mul on every ordered pair of R (dense), in-place forms; classes B1a/B1s/B2/N derived by running the real basic / after-basic / negation operations on R extremes (only the operand classes ge25519 feeds); Mul on all 25 class pairs, after-basic forms on their caller classes; Square, Neg, Copy, Contract (canonical value for every representation), Expand (bit 255 ignored) on every element of every class; SquareTimes(1,2,5,10,20,50,100), Recip, PowTwo252m3 (also in place) on subsets; SwapConditional(0/1) on all subset pairs; Expand/Contract on 2^k, 2^k+-1 and the 64 largest 255-bit strings. Oracle: exact residue via math/big plus the limb-bound postcondition of reduced outputs.",
+			ID:     "C18",
+			Units:  []Unit{{Pkg: "internal/curve25519", Job: "C18", Quick: layoutCfg, Thorough: layoutCfg}},
+			Rule:   "E1 enumeration on both limb layouts (default 5x51, force32bit 10x25.5, GOARCH=386): class R = full product over all limbs of a per-limb alphabet {0,mask,1,mask-1,(19)} (64-bit: 4 values quick / 5 thorough = 1024 / 3125 elements; 32-bit: 2 values = 1024 elements plus all vectors with <= 2 deviations from 3 base patterns over a 10-value alphabet) plus the representations of 0,1,p-1,p,p+1,2^255-1 and the documented multiplication worst case; Add/Sub/AddReduce/SubReduce/Mul on every ordered pair of R (dense), in-place forms; classes B1a/B1s/B2/N derived by running the real basic / after-basic / negation operations on R extremes (only the operand classes ge25519 feeds); Mul on all 25 class pairs, after-basic forms on their caller classes; Square, Neg, Copy, Contract (canonical value for every representation), Expand (bit 255 ignored) on every element of every class; SquareTimes(1,2,5,10,20,50,100), Recip, PowTwo252m3 (also in place) on subsets; SwapConditional(0/1) on all subset pairs; Expand/Contract on 2^k, 2^k+-1 and the 64 largest 255-bit strings. Oracle: exact residue via math/big plus the limb-bound postcondition of reduced outputs.",
 			Assume: []string{"math/big of the Go toolchain"},
 		},
 		{
-			ID:    "C19",
-			Units: []Unit{{Pkg: "internal/modm", Job: "C19", Quick: layoutCfg, Thorough: layoutCfg}},
-			Rule:  "E1 enumeration on both limb layouts (+ GOARCH=386): Expand on 64-byte strings k*L+delta for k in {0,1,2,2^j,2^j+-1 (j<=259), floor(2^e/L)+{-2..1} for e in {512,264,256,253,252}} x delta in {0,1,2,L-2,L-1}, 2^j+-1 boundaries, all 3^8 word-class strings; 32-byte strings kL+delta (k<=16), 2^j, 2^j-1, word classes around the words of L; 16-byte strings and other lengths (no reduction below 32 bytes); ExpandRaw on the nibble alphabet; Add and Mul on every ordered pair of the scalar alphabet A_s (0,1,2,L-1,L-2,(L+-1)/2,2^j,2^j-1,limb-class values) with canonical-limb postcondition and the callers' aliasing forms; ContractWindow4 on every nibble-pattern scalar below 2^255 (raw, clamped, reduced): sum d_i 16^i == s, d_i in [-8,8], d_63 in [0,8]; ContractSlidingWindow(5,7) on d*2^i (d odd < 128), runs of ones at offsets 0/1/124/251, periodic patterns, A_s: sum d_i 2^i == s, digits zero or odd within +-(2^(w-1)-1). Oracle: math/big.",
+			ID:     "C19",
+			Units:  []Unit{{Pkg: "internal/modm", Job: "C19", Quick: layoutCfg, Thorough: layoutCfg}},
+			Rule:   "E1 enumeration on both limb layouts (+ GOARCH=386): Expand on 64-byte strings k*L+delta for k in {0,1,2,2^j,2^j+-1 (j<=259), floor(2^e/L)+{-2..1} for e in {512,264,256,253,252}} x delta in {0,1,2,L-2,L-1}, 2^j+-1 boundaries, all 3^8 word-class strings; 32-byte strings kL+delta (k<=16), 2^j, 2^j-1, word classes around the words of L; 16-byte strings and other lengths (no reduction below 32 bytes); ExpandRaw on the nibble alphabet; Add and Mul on every ordered pair of the scalar alphabet A_s (0,1,2,L-1,L-2,(L+-1)/2,2^j,2^j-1,limb-class values) with canonical-limb postcondition and the callers' aliasing forms; ContractWindow4 on every nibble-pattern scalar below 2^255 (raw, clamped, reduced): sum d_i 16^i == s, d_i in [-8,8], d_63 in [0,8]; ContractSlidingWindow(5,7) on d*2^i (d odd < 128), runs of ones at offsets 0/1/124/251, periodic patterns, A_s: sum d_i 2^i == s, digits zero or odd within +-(2^(w-1)-1). Oracle: math/big.",
 			Assume: []string{"math/big of the Go toolchain"},
 		},
 		{
-			ID:    "C10",
-			Units: []Unit{{Pkg: "internal/ge25519", Job: "C10", Quick: []string{"default", "force32bit"}, Thorough: []string{"default", "force32bit", "386", "noasm+appengine"}}},
-			Rule:  "E1 enumeration: every y in [0,2^13) (thorough 2^16) x sign bit; the 2^9 (2^12) largest 255-bit y x sign (all 19 y >= p included); 2^k, 2^k+-1 for k < 255 x sign; public keys of 64 seeds. For each string: decodability == Euler criterion of the model, Pack(UnpackVartime(s)) == canonical encoding of the model's point, UnpackNegativeVartime gives the negation, Z = 1 and T = XY, decode-encode-decode is stable; both square-root branches (candidate root / root times sqrt(-1)), x = 0 and y >= p classes must be non-empty. Pack of non-normalised representations: 8 torsion + 26 (thorough 502) points x Z in {1,2,p-1,2^255-20,a0,19}, and with limbs left unreduced by one Add/Sub. non-trivial = decodable string or Pack case. (The X25519 conversion's use of decoding is C12.)",
+			ID:     "C10",
+			Units:  []Unit{{Pkg: "internal/ge25519", Job: "C10", Quick: []string{"default", "force32bit"}, Thorough: []string{"default", "force32bit", "386", "noasm+appengine"}}},
+			Rule:   "E1 enumeration: every y in [0,2^13) (thorough 2^16) x sign bit; the 2^9 (2^12) largest 255-bit y x sign (all 19 y >= p included); 2^k, 2^k+-1 for k < 255 x sign; public keys of 64 seeds. For each string: decodability == Euler criterion of the model, Pack(UnpackVartime(s)) == canonical encoding of the model's point, UnpackNegativeVartime gives the negation, Z = 1 and T = XY, decode-encode-decode is stable; both square-root branches (candidate root / root times sqrt(-1)), x = 0 and y >= p classes must be non-empty. Pack of non-normalised representations: 8 torsion + 26 (thorough 502) points x Z in {1,2,p-1,2^255-20,a0,19}, and with limbs left unreduced by one Add/Sub. non-trivial = decodable string or Pack case. (The X25519 conversion's use of decoding is C12.)",
 			Assume: append(trusted, "field Contract/Expand as decided by C18"),
 		},
 		{
-			ID:    "C16",
-			Units: []Unit{{Pkg: "internal/ge25519", Job: "C16", Quick: []string{"default", "noasm", "force32bit", "appengine"}, Thorough: allCfg}},
-			Rule:  "E1 enumeration per backend (assembly / reference selector, unsafe / subtle conditional move, both limb layouts): selector on its complete finite domain 32 rows x 17 digits (-8..8) == niels form of [b*256^row]B (validates all 256 table entries); the 32 sliding-table entries; Basepoint, d, 2d, sqrt(-1); fixed base on the nibble-pattern alphabet NIB (every digit value at every position, carry runs) + specials, through Expand (reduced callers) and ExpandRaw of the clamped value (X25519 caller) == Encode([s]B) of the model; double base on P in {B,-B,A(a0),A(a1),T_1..T_7,B+T_4,A(a0)+T_7,identity} (quick 5) x s1 in W5 (d*2^i, d odd < 32; runs of ones at offsets 0/1/124/251; 0,1,L-1,L-2) x s2 in {0,1,a0}, and P in {B,A(a0)} x s1 in {0,1,a0} x s2 in W7 (d odd < 128), points supplied through UnpackVartime / UnpackNegativeVartime alternately == [s1]P+[s2]B computed by the model through known discrete logs.",
+			ID:     "C16",
+			Units:  []Unit{{Pkg: "internal/ge25519", Job: "C16", Quick: []string{"default", "noasm", "force32bit", "appengine"}, Thorough: allCfg}},
+			Rule:   "E1 enumeration per backend (assembly / reference selector, unsafe / subtle conditional move, both limb layouts): selector on its complete finite domain 32 rows x 17 digits (-8..8) == niels form of [b*256^row]B (validates all 256 table entries); the 32 sliding-table entries; Basepoint, d, 2d, sqrt(-1); fixed base on the nibble-pattern alphabet NIB (every digit value at every position, carry runs) + specials, through Expand (reduced callers) and ExpandRaw of the clamped value (X25519 caller) == Encode([s]B) of the model; double base on P in {B,-B,A(a0),A(a1),T_1..T_7,B+T_4,A(a0)+T_7,identity} (quick 5) x s1 in W5 (d*2^i, d odd < 32; runs of ones at offsets 0/1/124/251; 0,1,L-1,L-2) x s2 in {0,1,a0}, and P in {B,A(a0)} x s1 in {0,1,a0} x s2 in W7 (d odd < 128), points supplied through UnpackVartime / UnpackNegativeVartime alternately == [s1]P+[s2]B computed by the model through known discrete logs.",
 			Assume: append(trusted, "field Contract as decided by C18; scalar Expand as decided by C19"),
 		},
 		{
@@ -108,6 +108,16 @@ func specs() []*Spec {
 			Post:   postC08,
 			Rule:   "E1 x configurations: one deterministic generator (the C01/C05 triple space at deviation level <= 2 evaluated in both modes, small-order keys x the S boundary alphabet, key generation and signing over seeds x SHA-512 boundary lengths x variants/contexts, batches of 15 sizes x 16 entry kinds x option sets; X25519 on the nibble-pattern scalar alphabet and 64 points, both key conversions on 2^11 (thorough 2^14) strings/seeds) is compiled into each of the 7 build configurations {default, noasm, force32bit, appengine, noasm+appengine, force32bit+appengine, GOARCH=386}; every case's outputs (keys, signatures, verdict vectors, X25519 outputs, error/panic classes) are digested and the transcripts compared case by case with the default configuration. The default configuration's outputs are checked against the model by C01-C07, C11, C12.",
 			Assume: []string{"arm64/ppc64le/s390x/mips builds of the same two limb layouts are not executed; the unalignedOk=false path of the unsafe conditional move is not reachable on amd64/386"},
+		},
+		{
+			ID: "C15",
+			Units: []Unit{
+				{Pkg: "extra/x25519", Job: "C15hist", Instr: "globals", Quick: def, Thorough: def},
+				{Pkg: "extra/x25519", Job: "C15sched", Instr: "sched", Quick: def, Thorough: []string{"default", "noasm"}},
+				{Pkg: "extra/x25519", Job: "C15race", Race: true, Quick: def, Thorough: []string{"default", "noasm"}},
+			},
+			Rule:   "E2 histories: every sequence of <= 2 (thorough 3) calls over a 19-operation alphabet (Sign pure/ctx/ph, Verify good/bad, ZIP-215 small-order, VerifyBatch of 4 good / 4 with one bad / 5 / 65 / 3, GenerateKey, NewKeyFromSeed, X25519 base / generic / low-order, both key conversions, Equal), each history in a FRESH process: every call's result == its result alone in a fresh process; content hash of every package-level variable of the five packages (registered by generated code) unchanged after every call. E3 schedules: 190 two-thread scenarios (every unordered pair of operations), 12 (thorough 24) three-thread scenarios, 12 scenarios of 2 threads x 2 calls, on a build whose every statement touching a package-level variable is preceded by a scheduler hook: discovery run with per-access content hashing finds written variables; a variable written by one call and accessed by a concurrent call is a data race (the library has no synchronisation); preemption-bounded DFS (bound 2, thorough 3) over call boundaries and accesses to written variables, each schedule in a fresh process, oracle = solo results and unchanged global state; with no written variable all access events commute and the executed call orders represent every interleaving. Auxiliary: the same scenarios free-running under the Go race detector. distinct = history / scenario.",
+			Assume: []string{"interleavings are explored at accesses to package-level variables (found by type-checking the current sources) and call boundaries; shared memory reached only through pointers smuggled into globals is seen by the content-hash invariant and the free-running race pass", "sequential consistency; the Go memory model's weaker orderings are not modelled"},
 		},
 		// NEXT-SPEC
 		{
